@@ -52,6 +52,7 @@ def configs(tier):
             for dense in ((True, False) if tier == "thorough" else ((True,) if d > 0 else (False,))):
                 out.append(dict(b, direction=d, dense=dense, events=True))
     if tier == "quick":
+        out.append(dict(method="MidpointSolver", rich=3, nsteps=3, tol=1e-3, direction=1, dense=True, events=True))
         out.append(dict(method="RK45CKSolver", rich=0, nsteps=6, tol=1e-4, direction=-1, dense=True, events=True))
         out.append(dict(method="RK4Solver", rich=0, nsteps=7, tol=None, direction=1, dense=False, events=True))
     return out
